@@ -15,6 +15,12 @@ CLAIMED = {
          "Interface values are modelled as (dynamic type tag, string contents); Indirect/Stringify (reflection) are assumed contracts. Finding C03-html-raw-in-attribute was found by obligation sanitizersForAttributeValue#post.policy and repaired (fix: commit 242a7af).", "4 C03"),
  "C04": ("Default deny and 'never weaker than the reviewed policy' proved for all strings: unlisted (element, attribute) pairs and element contents yield an error; listed ones yield a class >= the oracle's (partial order trustge); enum sanitizers proved to emit only the policy's words and chains refuse static partial values in enum contexts; tag/attribute-name/unquoted positions rejected; conditional names (names lists) all checked by loop invariants over both lists.",
          "Oracle = /verif/spec/policy.spec (written once from the policy as reviewed at the pinned commit, never regenerated). strings.Fields is named, not characterised (the link-rel rule is stated over its result). Failed obligations of the 300-literal table goals come back as solver 'unknown' rather than a model.", "4 C04"),
+ "C05": ("Two-state contracts on the real template.go / escape.go entry points in a heap model (field maps for Template, nameSpace, text/template.Template; ghost flag written()): escape, lookupAndEscapeTemplate, Execute, ExecuteTemplate, ExecuteToHTML, ExecuteTemplateToHTML and the top-level escapeTemplate are proved: a recorded failure (escapeErr neither nil nor errEscapeOK) is returned unchanged, never overwritten, and nothing is written (text/template's Execute, the only writer, is not reached); a failing analysis records the error and nils both trees; an incomplete template is an error; the *ToHTML variants return the zero HTML on every error path.",
+         "The analysis below escapeTree (escape.go: escapeTree, computeOutCtx, escapeTemplateBody, commit) is an ASSUMED abstract contract here, so 'every listed reason yields an error' is not derived, and KNOWN FINDING C05-failed-callee-left-in-memo (replayed on every run) lives exactly there. Preconditions assume the template is registered under its own name in its set and trees are in sync (orphaned templates excluded). text/template's Execute/Lookup/Name are assumed contracts.", "4 C05"),
+ "C07": ("checkCanParse proved to fail exactly when the set has executed; Parse, parseFiles and parseGlob proved to reach it first and to return its error with the heap unchanged (waypoint + frame on the verified prefix); escape and lookupAndEscapeTemplate proved to set escaped under the set mutex before anything else and never to clear it.",
+         "Clone, New and the bodies of Parse/parseFiles after the gate are NOT under contract yet (option stopafter: the rest of those bodies is unverified and listed in the evidence); isolation of clones is therefore not proved. Mutex modelled sequentially as a ghost bit.", "4 C07"),
+ "C08": ("Safety obligations generated without annotation for every function under contract in all three packages (about 70 functions): every index and slice expression in range, every dereferenced Template/nameSpace pointer non-nil under the stated representation preconditions, every type assertion, integer overflow, Lock/Unlock discipline, the explicit out-of-sync panic of lookupAndEscapeTemplate unreachable, and a decreasing variant for every loop.",
+         "NOT decided: termination of the mutual recursion of the analysis, panics inside text/template, and the functions not under contract (contextAfterText, escapeText, escapeAction, join, commit, Clone, New). Finding C08-break-continue-panic ({{break}} panicked) was repaired (fix: deb22bd); the nil-tree panic after a failed callee is KNOWN FINDING C05-failed-callee-left-in-memo.", "4 C08"),
  "C10": ("coerceToUTF8InterchangeValid proved equal to the spec transducer (per code point, specbad -> U+FFFD) for all strings, including the equivalence of the merged range table with the arithmetic definition of control and noncharacter code points; HTMLEscaped = htmlesc(coerce(s)); HTMLConcat = concatenation; the image language of escaping proved free of < > \" ' , & only in the five references, interchange-valid (regular-language lemmas).",
          "html.EscapeString/UnescapeString are assumed to be the five-entry homomorphism and its left inverse (the round-trip clause rests on that); rangetable.Merge assumed to be the union; range-over-string = UTF-8 decoding assumed.", "4 C10"),
  "C11": ("URLSanitized/isSafeURL proved equal to membership in URLAccept = lower^-1(L(safeURLPattern) minus ^javascript:), for all strings; URLAccept proved disjoint from the WHATWG javascript-scheme language, also after character-reference decoding (over-approximated by 'anything after the first &'); converse clause proved as a language inclusion.",
